@@ -3,6 +3,7 @@ import NixModel.Pure.Frame
 import NixModel.Pure.FrameRec
 import NixModel.Pure.FrameBytes
 import NixModel.Pure.FrameFx
+import NixModel.Pure.FrameBlock
 open Lean Nix Nix.Frame
 
 namespace Driver.C16
@@ -288,6 +289,68 @@ def handle (s : St) (j : Json) : St × Json :=
       | _, _ => (s, bad "C16: unknown op")
   | _ => (s, bad "C16: not an op")
 
-def main : IO Unit := loop (none : St) handle
+/-- the frames of the block (`Pure/FrameBlock.lean`), the frame the operations go to, a counter for fresh names -/
+structure DSt where
+  blk : Blk := ⟨[]⟩
+  cur : Option String := none
+  count : Nat := 0
+
+def nthFrame (d : DSt) (k : Json) : Option (String × SFrame) :=
+  match jInt? k with
+  | some i => if i < 0 then none else d.blk.frames[i.toNat]?
+  | none => none
+
+def errOrNull : Option Err → Json
+  | some e => err e
+  | none => ok Json.null
+
+/-- block level: `["frame", k]` selects the k-th created frame, `["recreate", k]` calls `create_data_frame` with the
+    name of the k-th frame, `["copy"]` copies the selected frame under a fresh name and selects the copy, a creation
+    line adds a frame under a fresh name and selects it (a refused one changes nothing); every other line is a
+    `DataFrame` operation on the selected frame -/
+def handleBlk (d : DSt) (j : Json) : DSt × Json :=
+  match (jArr j).toList with
+  | [Json.str "new_block"] => ({}, ok Json.null)      -- every history starts in a block of its own
+  | [Json.str "frame", k] =>
+    match nthFrame d k with
+    | some (n, _) => ({ d with cur := some n }, ok Json.null)
+    | none => (d, bad "C16: frame")
+  | [Json.str "recreate", k] =>
+    match nthFrame d k with
+    | some (n, _) =>
+      let p := blkCreate d.blk n (sCreated (createDict [("z", .i64)] none))
+      ({ d with blk := p.1 }, errOrNull p.2)
+    | none => (d, bad "C16: recreate")
+  | [Json.str "copy"] =>
+    match d.cur with
+    | none => (d, bad "C16: no frame")
+    | some c =>
+      let name := s!"copy{d.count + 1}"
+      let p := blkCopy d.blk c name
+      match p.2, p.1.find name with
+      | none, some s => ({ blk := p.1, cur := some name, count := d.count + 1 }, sDump s)
+      | some e, _ => ({ d with count := d.count + 1 }, err e)
+      | none, none => (d, bad "C16: copy")
+  | Json.str op :: _ =>
+    if op.startsWith "create_" then
+      let name := s!"df{d.count + 1}"
+      match handle none j with
+      | (some s, out) =>
+        let p := blkCreate d.blk name (.ok s)
+        ({ blk := p.1, cur := some name, count := d.count + 1 }, out)
+      | (none, out) => ({ d with count := d.count + 1 }, out)
+    else
+      match d.cur with
+      | none => (d, bad "C16: no frame")
+      | some c =>
+        match d.blk.find c with
+        | none => (d, bad "C16: no frame")
+        | some s =>
+          match handle (some s) j with
+          | (some t, out) => ({ d with blk := (blkUpdate d.blk c (fun _ => (t, none))).1 }, out)
+          | (none, out) => (d, out)
+  | _ => (d, bad "C16: not an op")
+
+def main : IO Unit := loop ({} : DSt) handleBlk
 
 end Driver.C16
